@@ -290,8 +290,25 @@ func cmdCheck(args []string) {
 	for a := range assumptions {
 		asm = append(asm, a)
 	}
+	// which check verifies a used contract, if any
+	verifiedBy := map[string][]string{}
+	for _, b := range prog.BlockList {
+		if b.Kind == "func" || b.Kind == "lemma" {
+			n := b.QName()
+			if b.Kind == "lemma" {
+				n = "lemma " + b.PkgName + "." + b.Name
+			}
+			verifiedBy[n] = b.Props
+		}
+	}
 	for u := range used {
-		asm = append(asm, "callee contract used at call sites (verified in its own block): "+u)
+		if ps, ok := verifiedBy[u]; ok && len(ps) > 0 {
+			asm = append(asm, "callee contract used at call sites (verified in its own block by the check of "+strings.Join(ps, "/")+"): "+u)
+		} else if ok {
+			asm = append(asm, "callee contract used at call sites and NOT verified by any check (it only names the function's result as an uninterpreted function of its arguments, or constrains nothing): "+u)
+		} else {
+			asm = append(asm, "callee contract used at call sites (verified in its own block): "+u)
+		}
 	}
 	asm = append(asm,
 		"pointer parameters are non-nil and pairwise non-aliased at function entry",
